@@ -4,6 +4,8 @@ import ast
 from ..model import AnalysisError
 from ..lib import (FV, decode_new, decode_call, phi_members, is_sym, is_const, is_str, strip_stores, stores_of,
                    find_assign, find_assigns, simple_assigns, local_term)
+from ..lib import (reached_iff, reached_implies, implies_reached, reached_iff_any, path_term, cond_equiv, cond_implies,  # noqa: F401
+                   else_stmts, branch_stmts, context_literals)
 from ..cfg import always_raises, walk_stmts
 from . import common as cm
 from . import geom
@@ -151,13 +153,12 @@ def d4_is_aligned(chk, repo):
     chk.rule("C14.D4", "is_aligned: cell sizes are compared first (np.allclose with the tolerance); then for both corners the "
                        "remainder of |difference| modulo cell must not lie strictly between tol and cell - tol on any axis")
     v = FV(repo, "mesh.Mesh.is_aligned", param_types={"other": MESH})
-    first = [s for s in v.body if isinstance(s, ast.If) and s.body and isinstance(s.body[-1], ast.Return)]
     okc = False
-    for s in first:
-        ct = v.ev.term(s.test, at=s)
-        rv = v.ev.term(s.body[-1].value, at=s.body[-1]) if s.body[-1].value is not None else None
-        if v.eq(ct, v.spec("not np.allclose(self.cell, other.cell, atol=tolerance)")) and rv is not None and is_const(v.ctx, rv, False):
-            okc = True
+    for r_ in v.returns():
+        if r_.value is not None and is_const(v.ctx, v.ev.term(r_.value, at=r_), False) and \
+                not any(isinstance(p_, ast.For) for p_, f_ in v.cfg.enclosing(r_)):
+            if reached_iff(v, r_, v.spec("not np.allclose(self.cell, other.cell, atol=tolerance)")):
+                okc = True
     w = FV(repo, "mesh.Mesh.is_aligned")
     for text, key in (("not isinstance(other, df.Mesh)", "other-is-a-mesh"), ("not isinstance(tolerance, numbers.Real)", "real-tolerance")):
         okg, det = w.guard(text, exc=("TypeError",))
@@ -183,9 +184,11 @@ def d4_is_aligned(chk, repo):
                     is_sym(v.ctx, tol, "param:tolerance")
     chk.ob("mesh.Mesh.is_aligned::corner-remainders", ok, "C14.D4",
            "both pmin and pmax differences must be whole multiples of the cell size up to the tolerance", v.f)
-    rets = [r for r in v.returns() if r.value is not None]
-    chk.ob("mesh.Mesh.is_aligned::otherwise-true", bool(rets) and is_const(v.ctx, v.ev.term(rets[-1].value, at=rets[-1]), True) and
-           v.cfg.parent.get(id(rets[-1]), (None,))[0] is None, "C14.D4", "meshes passing both tests are aligned", v.f)
+    rets = [r for r in v.returns() if r.value is not None and is_const(v.ctx, v.ev.term(r.value, at=r), True)]
+    chk.ob("mesh.Mesh.is_aligned::otherwise-true", len(rets) == 1 and
+           not any(isinstance(p_, ast.For) for p_, f_ in v.cfg.enclosing(rets[0])) and
+           reached_iff(v, rets[0], v.spec("np.allclose(self.cell, other.cell, atol=tolerance)")), "C14.D4",
+           "meshes passing both tests are aligned", v.f)
     okg, det = v.guard("not isinstance(other, df.Mesh)", exc=("TypeError",))
     chk.ob("mesh.Mesh.is_aligned::type-checked", okg, "C14.D4", det, v.f)
 
